@@ -1552,7 +1552,10 @@ class Field(SupportComplexDataType):
                     delattr(self, component_name)
             else:
                 component = getattr(self, component_name)
-                component_ref = self.structure_by_name[component_name]['ref']
+                try:
+                    component_ref = self.structure_by_name[component_name]['ref']
+                except (KeyError, TypeError):  # no component structure (e.g. a field of type varies)
+                    raise ChildNotFound(name)
                 component_datatype = component_ref[2]
                 subcomponent_name = '{0}_{1}'.format(component_datatype, subcomponent)
                 try:
